@@ -495,6 +495,7 @@ class _NullTracer:
 T = _NullTracer()
 G0 = 7
 G1 = 8
+NOTFN = len  # a name that resolves to something ptera cannot instrument
 
 
 def _deco(fn):
